@@ -720,13 +720,11 @@ func ruleC17Complex(w *World, r *Report, f, isW, isE, isR, width, exactUn *ssa.F
 			init = e
 		}
 	}
-	// R17.3 is about what the arm returns — one {port, 0xFFFF} per port of [low, high], in order — however
-	// the list is produced (appending in a loop over the ports, filling a slice made with the port count, …):
-	// the function is run on ranges around every boundary of the types involved and the result compared.
-	decided := exactExpansionInterpreted(r, f, name, pos, exactStrategy)
-	// A loop that counts the ports themselves is, in addition, checked symbolically — that holds for every
-	// range, not only the interpreted ones. (When the function could not be interpreted, whatever loop the
-	// arm has is held to that form, as before.)
+	// R17.3 is about what the arm returns — one {port, 0xFFFF} per port of [low, high], in order. Two ways of
+	// producing that list are decided symbolically: a loop that counts the ports themselves (below), and a slice
+	// made with the port count whose i-th slot is filled with {low + i, 0xFFFF} (exactPositionLoopSymbolic).
+	// Nothing is executed: both hold for every range.
+	decided := exactPositionLoopSymbolic(w, r, f, name, pos)
 	is := symOf(init)
 	il, ilok := linearIn(is)
 	if decided && !(ilok && il.leaf == "portRange.low") {
@@ -803,69 +801,6 @@ func ruleC17Complex(w *World, r *Report, f, isW, isE, isR, width, exactUn *ssa.F
 		r.check(appends == 1, "R17.3", name, "one rule per iteration", pos, "1 append in the loop body", fmt.Sprintf("%d appends per iteration", appends))
 	}
 	ruleC17ExactPrefix(w, r, f, iv, name, pos, width, exactStrategy)
-}
-
-// exactExpansionInterpreted runs asComplexTernaryMatches(pr, Exact) on true ranges (low < high, not the
-// wildcard) placed around 0, the 8-, 15- and 16-bit boundaries and of widths around the bound the arm honours,
-// and compares every list it returns with {low,0xFFFF}, {low+1,0xFFFF}, …, {high,0xFFFF}. A range the arm
-// refuses has nothing to compare (when it may refuse is R17.2). Returns false when the function could not
-// be followed (nothing is reported then).
-func exactExpansionInterpreted(r *Report, f *ssa.Function, name, pos string, exactStrategy int64) bool {
-	lows := []uint64{0, 1, 2, 3, 100, 127, 128, 254, 255, 256, 257, 1000, 32766, 32767, 32768, 65434, 65435, 65500, 65533, 65534}
-	widths := []uint64{1, 2, 3, 16, 99, 100, 101, 255, 256, 300}
-	n, expanded, bad := 0, 0, ""
-	for _, lo := range lows {
-		for _, wd := range widths {
-			hi := lo + wd
-			if hi > 65535 || (lo == 0 && hi == 65535) {
-				continue
-			}
-			e := &evaluator{}
-			res, ok := e.exec(f, []evalVal{prVal(lo, hi), {u: uint64(exactStrategy), ok: true}})
-			if !ok {
-				if !execFault(e.fail) {
-					return false
-				}
-				n++
-				if bad == "" {
-					bad = fmt.Sprintf("[%d, %d] → %s", lo, hi, e.fail)
-				}
-				continue
-			}
-			if len(res) != 2 || !res[1].ok || !res[0].ok {
-				return false
-			}
-			n++
-			if !res[1].isNil {
-				continue // refused
-			}
-			expanded++
-			var got []evalVal
-			if res[0].obj != nil {
-				got = res[0].obj.elems
-			}
-			desc := ""
-			if uint64(len(got)) != wd+1 {
-				desc = fmt.Sprintf("%d rules for %d ports", len(got), wd+1)
-			}
-			for i := 0; i < len(got) && desc == ""; i++ {
-				g := got[i]
-				if len(g.fields) != 2 || !g.fields[0].ok || !g.fields[1].ok {
-					return false
-				}
-				if g.fields[0].u != lo+uint64(i) || g.fields[1].u != 0xFFFF {
-					desc = fmt.Sprintf("rule %d is {%d, 0x%X}, want {%d, 0xFFFF}", i, g.fields[0].u, g.fields[1].u, lo+uint64(i))
-				}
-			}
-			if desc != "" && bad == "" {
-				bad = fmt.Sprintf("[%d, %d] → %s", lo, hi, desc)
-			}
-		}
-	}
-	r.Extra["R17.3_ranges_interpreted"] = n
-	r.check(bad == "", "R17.3", name, "the Exact expansion of [low, high] is {low,0xFFFF} … {high,0xFFFF}: one rule per port, in order", pos, fmt.Sprintf("%d ranges interpreted, %d expanded", n, expanded), "asComplexTernaryMatches(Exact) does not return one exact rule per port of the range: "+bad)
-	r.floor("R17.3 ranges interpreted", n, 150) // (that some range is expanded at all is R17.2's fourth outcome)
-	return true
 }
 
 // ruleC17ExactPrefix (R17.2): the decisions in front of the Exact expansion.
